@@ -97,6 +97,7 @@ type c39sub struct {
 }
 
 type c39state struct {
+	fails   [][2]string // oracle failures of the op being executed (flushed after c.Op)
 	d       *event.Dispatcher
 	cap     int
 	subs    []*c39sub
@@ -123,6 +124,21 @@ func c39watch(f func()) bool {
 	}
 }
 
+func (st *c39state) fail(sig, detail string) { st.fails = append(st.fails, [2]string{sig, detail}) }
+
+var c39reported = map[string]int{}
+
+func (st *c39state) flush(c *Ctx) {
+	for _, f := range st.fails {
+		c.Count("oracle-fail/" + f[0])
+		c39reported[f[0]]++
+		if c39reported[f[0]] <= 20 { // `check` re-reads ops.txt once per FAIL line
+			c.Fail(f[0], f[1])
+		}
+	}
+	st.fails = nil
+}
+
 func (st *c39state) recvOne(c *Ctx, id int) string {
 	s := st.subs[id]
 	select {
@@ -146,13 +162,13 @@ func (st *c39state) recvOne(c *Ctx, id int) string {
 					break
 				}
 				if !e.optional {
-					c.Fail("recv:out-of-order-or-lost", fmt.Sprintf("%s sub %d received (%d,%d) while (%d,%d) was due", st.caseTag, id, t, v, e.t, e.v))
+					st.fail("recv:out-of-order-or-lost", fmt.Sprintf("%s sub %d received (%d,%d) while (%d,%d) was due", st.caseTag, id, t, v, e.t, e.v))
 					matched = true
 					break
 				}
 			}
 			if !matched {
-				c.Fail("recv:unexpected-or-duplicate", fmt.Sprintf("%s sub %d received (%d,%d) which was never due", st.caseTag, id, t, v))
+				st.fail("recv:unexpected-or-duplicate", fmt.Sprintf("%s sub %d received (%d,%d) which was never due", st.caseTag, id, t, v))
 			}
 		}
 		return fmt.Sprintf("ev %d %d", t, v)
@@ -169,20 +185,20 @@ func (st *c39state) checkDrained(c *Ctx, id int, what string) {
 	}
 	for _, e := range s.expect {
 		if !e.optional {
-			c.Fail("recv:event-lost", fmt.Sprintf("%s sub %d channel %s but (%d,%d) was due", st.caseTag, id, what, e.t, e.v))
+			st.fail("recv:event-lost", fmt.Sprintf("%s sub %d channel %s but (%d,%d) was due", st.caseTag, id, what, e.t, e.v))
 			break
 		}
 	}
 	s.expect = nil
 	if what == "chclosed" && s.active {
-		c.Fail("recv:closed-while-subscribed", fmt.Sprintf("%s sub %d", st.caseTag, id))
+		st.fail("recv:closed-while-subscribed", fmt.Sprintf("%s sub %d", st.caseTag, id))
 	}
 }
 
 func (st *c39state) postOne(c *Ctx, t, v int) bool {
 	err := st.d.Post(c39mk(t, v))
 	if (err != nil) != st.stopped {
-		c.Fail("post:stopped-mismatch", fmt.Sprintf("%s Post err=%v but stopped=%v", st.caseTag, err, st.stopped))
+		st.fail("post:stopped-mismatch", fmt.Sprintf("%s Post err=%v but stopped=%v", st.caseTag, err, st.stopped))
 	}
 	if err == nil {
 		for _, s := range st.subs {
@@ -312,7 +328,7 @@ func (st *c39state) exec(c *Ctx, line string, typeIdx map[reflect.Type]int) stri
 			res = fmt.Sprintf("sub %d", len(st.subs))
 			if st.stopped {
 				if !h.Closed() {
-					c.Fail("subscribe-after-stop:not-closed", st.caseTag)
+					st.fail("subscribe-after-stop:not-closed", st.caseTag)
 				}
 			} else {
 				s.active = true
@@ -368,16 +384,16 @@ func (st *c39state) exec(c *Ctx, line string, typeIdx map[reflect.Type]int) stri
 			return "bad-handle"
 		}
 		if !c39watch(st.subs[id].h.Unsubscribe) {
-			c.Fail("unsubscribe:blocked", st.caseTag)
+			st.fail("unsubscribe:blocked", st.caseTag)
 		}
 		st.subs[id].active = false
 		if !st.subs[id].h.Closed() {
-			c.Fail("unsubscribe:not-closed", st.caseTag)
+			st.fail("unsubscribe:not-closed", st.caseTag)
 		}
 		return "done"
 	case "stop":
 		if !c39watch(st.d.Stop) {
-			c.Fail("stop:blocked", st.caseTag)
+			st.fail("stop:blocked", st.caseTag)
 		}
 		st.stopped = true
 		for _, s := range st.subs {
@@ -690,7 +706,7 @@ func c39concurrent(c *Ctx, round int) {
 func c39fullReal(c *Ctx) {
 	st := &c39state{caseTag: "full-real"}
 	ti := c39typeIndex()
-	run := func(l string) string { return st.exec(c, l, ti) }
+	run := func(l string) string { r := st.exec(c, l, ti); st.flush(c); return r }
 	run("reset 65536")
 	run("sub 0")
 	run("sub 0 1")
@@ -723,6 +739,7 @@ func runC39(c *Ctx) {
 			}
 			st.caseTag = tag
 			c.Op(l, st.exec(c, l, ti))
+			st.flush(c)
 		}
 	}
 	if c.Replay != "" {
